@@ -148,7 +148,7 @@ PROPS = {
     },
     "C16": {
         'coq': 'Properties/C16.v',
-        'streams': ['loopadv'],
+        'streams': ['loopadv', 'ignore'],
         'level_text': 'C16_run_never_panics: for every script of arbitrary datagrams, receive errors, stop requests, user behaviour and send-failure pattern the run returns Ok or Err (no panic, fuel suffices); C16_ignored_inert: ignored messages return the state unchanged.',
         'level_note': 'Coq kernel; no axioms; hand-written model of run_inner (src/run.rs), Datapath/Report (src/lib.rs) and Backend::next, with user callbacks and send failures as arbitrary oracles; tied to the code by running RunBuilder::run inline over a scripted Ipc with recording algorithms on the same histories (model and implementation logs compared after sorting hash-ordered DROP/INSTALL batches and renaming uids through the install messages). Assumes handles are used only inside the three callbacks.',
         'rule': 'structured random histories over 3 addresses x 4 flow ids: ready / create (9 algorithm names incl. prefixes, extensions, empty, 63 bytes) / measurement for live and dead flows / close / unknown, 1-4 messages per datagram (occasionally 10-14, exceeding the 1024-byte buffer), restarts, re-creates, receive errors, stop requests; 0-3 additional algorithms with duplicate names and absent instances, 6 table programs incl. a duplicate name and an uncompilable one; callbacks issue set_program/update_field/get_field lists; adversarial datagrams (every type code 0..8, 200, 255, wide codes, truncated/oversized payloads, random bytes, >1024-byte datagrams) and one injected send failure at a random position in a third of the cases; non-trivial = history contains raw adversarial bytes or a failed send',
@@ -281,7 +281,7 @@ PROPS = {
                       "(C03_full_statement: image_wf, an independent decoder, incl. temporaries read only after being written) is evaluated on every image portus produces in the streams, "
                       "and every image of the dp stream is loaded by the real libccp.",
         "level_note": LANG_NOTE,
-        "streams": ["limits"],
+        "streams": ["limits", "compile"],
         "rule": "programs at and one beyond each register limit (15/16/17 report and control variables, 5/6/7 locals, 1..11 operator nodes in three shapes in statement and condition position), "
                 "three declaration styles, plus generated programs; image_wf evaluated on every accepted image; non-trivial = accepted image (predicate applied); distinct by source",
         "nontrivial": lambda r: r["impl"].startswith("OK"),
